@@ -27,7 +27,7 @@ VECTOR_METRICS = ["mae", "bias", "rmse", "stderror", "corr", "rankcorr", "kendal
                   "dmb", "mbias", "ef", "derror", "leps", "alphaindex", "diff", "ratio", "obsstddev", "fcststddev"]
 PERFECT = ["mae", "rmse", "cmae", "stderror", "nsec", "nnsec", "kge", "alphaindex", "leps", "corr", "rankcorr", "kendallcorr",
            "derror", "bias", "diff", "ratio", "rmsf", "dmb", "mbias"]
-AGGS = mrun.AGGREGATORS + ["0", "0.25", "0.5", "0.9", "1"]
+AGGS = mrun.AGGREGATORS + ["0", "0.25", "0.5", "0.9", "1", "0.975", "0.025", "0.125", "0.333"]
 
 
 def vector_strategy(tier):
